@@ -270,7 +270,10 @@ def r4(ctx):
                                                                for lf in _leaves(a[1])) if x]   # '' = a test of the message's own variant
                                             if nms:
                                                 want_re, forbid_re = ROLE[role]
-                                                ok = ok and all(re.search(want_re, x, re.I) for x in nms) and not any(re.search(forbid_re, x, re.I) for x in nms)
+                                                # .. and, as in every sibling conversion (Binance L1, Kraken L1), an empty side is the
+                                                # one whose PRICE is zero: a side with a stated price is never dropped because of its amount
+                                                ok = ok and all(re.search(want_re, x, re.I) for x in nms) and not any(re.search(forbid_re, x, re.I) for x in nms) \
+                                                    and all(re.search(ROLE["price"][0], x.split(".")[-1], re.I) for x in nms)
                                                 names = names + ["(condition) " + x for x in nms]
                         ctx.check("%s:%s.%s" % (short, k[1].rsplit("::", 1)[-1], role), ok,
                                   "`%s` is filled from message fields of the same role (never crossed)" % role,
